@@ -63,6 +63,11 @@ FUNCTIONS = [
     ('isotp/protocol.py', 'TransportLayerLogic', '_start_reception_after_first_frame_if_valid'),
     ('isotp/protocol.py', 'TransportLayerLogic', '_stop_sending'),
     ('isotp/protocol.py', 'TransportLayerLogic', '_make_flow_control'),
+    ('isotp/protocol.py', 'TransportLayerLogic', 'send'),
+    ('isotp/protocol.py', 'TransportLayerLogic', 'set_address'),
+    ('isotp/protocol.py', 'TransportLayerLogic', 'load_params'),
+    ('isotp/protocol.py', 'TransportLayerLogic.SendRequest', 'complete'),
+    ('isotp/tools.py', 'FiniteByteGenerator', '__init__'),
     ('isotp/protocol.py', 'TransportLayerLogic', '_make_tx_msg'),
     ('isotp/protocol.py', 'TransportLayerLogic', '_pad_message_data'),
     ('isotp/protocol.py', 'TransportLayerLogic', 'stop_sending'),
